@@ -1013,6 +1013,17 @@ impl<F: MatchFunc> Aligner<F> {
         alignment
     }
 
+    /// Verification hook (only with `--cfg bio_verif`): number of cells in the band built by the
+    /// last call, counted directly from the column ranges.
+    #[cfg(bio_verif)]
+    pub fn verif_band_cells(&self) -> usize {
+        self.band
+            .ranges
+            .iter()
+            .map(|r| if r.end > r.start { r.end - r.start } else { 0 })
+            .sum()
+    }
+
     #[allow(dead_code)]
     pub fn visualize(&self, alignment: &Alignment) {
         // First populate the band
